@@ -61,13 +61,18 @@ func vh_emit_eth() {
 	mac := tcpip.LinkAddress(vnString("mac", 6))
 	e := &endpoint{hdrSize: 14, addr: mac}
 	n := vnChoice("hdrlen", 2) * 20
-	m := vnChoice("paylen", 3)
+	m := vnChoice("paylen", 4)
 	hdr := buffer.NewPrependable(14 + n)
 	copy(hdr.Prepend(n), vnBytes("nhdr", n))
 	payload := vnBytes("payload", m)
 	var vv buffer.VectorisedView
 	if m > 0 {
 		vv = buffer.View(payload).ToVectorisedView()
+	}
+	if m >= 2 && vnBool("twoviews") {
+		// payloads spanning several views (replies to large frames, forwarded packets)
+		vv = buffer.NewVectorisedView(m, []buffer.View{buffer.View(payload[:1]), buffer.View(payload[1:])})
+		vreach("multi-view")
 	}
 	r := &stack.Route{RemoteLinkAddress: tcpip.LinkAddress(vnString("dstmac", 6)), LocalLinkAddress: tcpip.LinkAddress(vnString("srcmac", 6))}
 	if vnBool("haslocal") {
